@@ -73,7 +73,7 @@ def points(tier):
     pts.append(["noperiod"])
     pts.append(["numunit"])
     for si in range(4):
-        for vers in ("2.0", "1.2"):
+        for vers in ("2.0", "1.2", "3.0"):
             for case in ("preserve", "upper", "lower"):
                 for ti in range(len(TITLE_FORMS)):
                     pts.append(["viaread", si, vers, case, ti])
